@@ -314,9 +314,24 @@ func scJunk(r *Run) {
 	midHandshake := newHonest(0, Addr(30, 5100))
 	midDone := make(chan error, 1)
 	startMid := r.Intn("cfg", nJunk)
+	// one established session is closed in the middle of the junk (endpoint state "closing"/closed):
+	// datagrams that copy its public header keep arriving afterwards
+	closeAt := -1
+	var closedSess *liveSess
+	if len(live) > 1 && r.Intn("cfg", 2) == 0 {
+		closeAt = r.Intn("cfg", nJunk)
+	}
 	for i := 0; i < nJunk; i++ {
 		if i == startMid {
 			r.Go(func() { midDone <- midHandshake.C.Handshake() })
+		}
+		if i == closeAt {
+			closedSess = live[len(live)-1]
+			live = live[:len(live)-1]
+			cs := closedSess
+			r.Go(func() { cs.tc.C.Close() })
+			r.CountFault("session-closed-during-junk", 1)
+			live = append(live, closedSess) // still a target of header-copying junk
 		}
 		if !r.Op("junk") {
 			continue
@@ -460,6 +475,15 @@ func scJunk(r *Run) {
 	default:
 	}
 	// oracle: established sessions still work, a fresh handshake from a fresh address completes
+	if closedSess != nil {
+		kept := live[:0]
+		for _, s := range live {
+			if s != closedSess {
+				kept = append(kept, s)
+			}
+		}
+		live = kept
+	}
 	for i, s := range live {
 		r.Obligation(1)
 		if !s.probe(r, fmt.Sprintf("post%d", i)) {
